@@ -246,7 +246,10 @@ func genCross(g *vlib.G) {
 
 func genHelpers(g *vlib.G) {
 	maxN := vlib.Pick(g, 512, 1024)
-	for n := 1; n <= maxN; n++ {
+	// every n up to maxN, then sampled long lengths (both parities, a prime,
+	// powers of two and their neighbours) up to 10^4
+	ns := append(vlib.Ints(1, maxN), 2047, 2048, 2049, 4096, 4097, 8191, 8192, 9973, 10000)
+	for _, n := range ns {
 		n := n
 		g.Case(fmt.Sprintf("n=%d", n), func(t *vlib.T) {
 			rf := fourier.NewFFT(n)
@@ -344,7 +347,17 @@ func panics(f func()) (msg string, ok bool) {
 
 func genPadTrim(g *vlib.G) {
 	maxLen := vlib.Pick(g, 300, 1100)
-	for l := 0; l <= maxLen; l++ {
+	// every length up to maxLen, then the neighbours of every larger power of
+	// two up to 2^14 and one length in between
+	ls := vlib.Ints(0, maxLen)
+	for p := 512; p <= 16384; p *= 2 {
+		for _, l := range []int{p - 1, p, p + 1, p + p/2} {
+			if l > maxLen {
+				ls = append(ls, l)
+			}
+		}
+	}
+	for _, l := range ls {
 		l := l
 		g.Case(fmt.Sprintf("len=%d", l), func(t *vlib.T) {
 			for _, base := range []int{2, 4} {
